@@ -997,9 +997,10 @@ static int build_start(const char* s) {
     if (blk == NULL) { fprintf(stderr, "cannot pre-claim arena blocks\n"); return 2; }
     return 0;
   }
-  if (s[0] == 'S' && (s[1] == 'a' || s[1] == 'n')) {
+  if (s[0] == 'S' && (s[1] == 'a' || s[1] == 'n' || s[1] == 'm')) {
     /* Sa<shape>: shape = delta index (0..3) * 16 + size index (0..3) * 4 + exclusive * 2 + committed;
-       Sn<shape>: the same, registered for NUMA node 1 (the allocating threads run on node 0: a "foreign" arena) */
+       Sn<shape>: the same, registered for NUMA node 1 (the allocating threads run on node 0: a "foreign" arena)
+       Sm<shape>: as Sa, registered through the six-argument mi_manage_os_memory (never exclusive; the arena id is looked up through mi_arena_area) */
     int shape = atoi(s + 2); const int numa = (s[1] == 'n' ? 1 : -1);
     static const size_t deltas[4] = { 0, 4096, 1 * MiB, 32 * MiB - 4096 };
     static const size_t sizes[4] = { 64 * MiB, 95 * MiB, 96 * MiB, 100 * MiB };
@@ -1018,7 +1019,14 @@ static int build_start(const char* s) {
     *(volatile uint64_t*)(given + size) = 0xC0FFEE0000000000ULL ^ (uintptr_t)(given + size);
     g_map_lo = (uintptr_t)base; g_map_hi = (uintptr_t)given + size + 4096; g_given_lo = (uintptr_t)given; g_given_hi = (uintptr_t)given + size;
     vf_os_adopt(given, size, committed ? VF_P_RW : VF_P_NONE);
-    if (!mi_manage_os_memory_ex(given, size, committed, false, true, numa, excl, &g_arena)) { fprintf(stderr, "mi_manage_os_memory_ex refused the region\n"); return 2; }
+    if (s[1] == 'm') {
+      excl = 0;
+      if (!mi_manage_os_memory(given, size, committed, false /* large */, true /* zero */, numa)) { fprintf(stderr, "mi_manage_os_memory refused the region\n"); return 2; }
+      g_arena = 0;
+      for (int id = 1; id <= 128 && g_arena == 0; id++) { size_t z = 0; uintptr_t a = (uintptr_t)mi_arena_area((mi_arena_id_t)id, &z); if (a >= (uintptr_t)given && a < (uintptr_t)given + size) g_arena = (mi_arena_id_t)id; }
+      if (g_arena == 0) { vf_violation("outside-given-bounds", "no arena lies inside the range [%p,+%zu) given to mi_manage_os_memory", given, size); return 1; }
+    }
+    else if (!mi_manage_os_memory_ex(given, size, committed, false, true, numa, excl, &g_arena)) { fprintf(stderr, "mi_manage_os_memory_ex refused the region\n"); return 2; }
     size_t asz = 0; void* astart = mi_arena_area(g_arena, &asz);
     g_arena_lo = (uintptr_t)astart; g_arena_hi = g_arena_lo + asz; g_arena_excl = excl;
     if (g_arena_lo < (uintptr_t)given || g_arena_hi > (uintptr_t)given + size) { vf_violation("outside-given-bounds", "the arena [%p,+%zu) is not inside the given range [%p,+%zu)", astart, asz, given, size); return 1; }
